@@ -147,7 +147,106 @@ def c11_2(ctx):
     return out
 
 
+def _output_cells(ctx):
+    if not hasattr(ctx, "_c11_out"):
+        ctx._c11_out = _output_cells_(ctx)
+    return ctx._c11_out
+
+
+def _output_cells_(ctx):
+    """PSBT._describe_basic_multisig_outputs(2, 3, xpubs of three cosigners) evaluated with scripts, keys and derivation as stand-ins.  An output
+    is labelled change exactly when it carries a 2-of-3 script whose three keys come from three DISTINCT cosigners of the map, each the key its
+    xpub derives along the stated path: the honest change output (keys listed in every order) is labelled change and the plain output is
+    not; an output with another threshold or key count, with two keys of one cosigner, with a key of an unknown cosigner, with a key that the
+    stated path does not lead to, with fewer records than keys, and a second change output are refused"""
+    from itertools import permutations
+    from sa.cells import Evaluator, Obj, Raised, Undecided
+    spec = "psbt:PSBT._describe_basic_multisig_outputs"
+    mod, fn = rl.get(ctx, spec)
+    XPUB_PATH = "m/48'/1'/0'/2'"
+
+    def trav(o, path, *a, **k):
+        return Obj("hd", "HDPublicKey", {"at": (o.attrs["xfp"], path.lower().replace("h", "'"))})
+    hooks = {("PSBTOut", "validate"): lambda o: True, ("Script", "get_quorum"): lambda o: o.attrs["quorum"], ("Script", "address"): lambda o, network="mainnet", **k: o.attrs.get("addr", "addr"),
+             ("HDPublicKey", "traverse"): trav, ("HDPublicKey", "sec"): lambda o, *a, **k: ("sec|%s|%s" % o.attrs["at"]).encode(), ("HDPublicKey", "xpub"): lambda o, *a, **k: "xpub-" + o.attrs["xfp"],
+             ("HDPublicKey", "__repr__"): lambda o: "xpub", ("HDPublicKey", "__str__"): lambda o: "xpub",
+             ("S256Point", "sec"): lambda o, *a, **k: o.attrs["sec_"], ("Script", "__repr__"): lambda o: "script", ("Script", "__str__"): lambda o: "script"}
+    xfps = ["aaaaaaaa", "bbbbbbbb", "cccccccc"]
+    hdmap = {x: Obj("hd", "HDPublicKey", {"xfp": x, "depth": 4, "at": (x, "m")}) for x in xfps}
+
+    def named(xfp, true_tail, stated_tail=None):
+        return Obj("psbt", "NamedPublicKey", {"root_fingerprint": bytes.fromhex(xfp), "root_path": XPUB_PATH + "/" + (stated_tail or true_tail), "sec_": ("sec|%s|m/%s" % (xfp, true_tail)).encode()})
+
+    def out_(amount, addr, pubs=None, quorum=(2, 3)):
+        spk = Obj("script", "P2WSHScriptPubKey", {"addr": addr})
+        ws = Obj("script", "WitnessScript", {"quorum": quorum}) if pubs else None
+        return Obj("psbt", "PSBTOut", {"tx_out": Obj("tx", "TxOut", {"amount": amount, "script_pubkey": spk}), "witness_script": ws, "redeem_script": None,
+                                       "named_pubs": {("k", i): p for i, p in enumerate(pubs or [])}})
+    honest = [named(x, "1/7") for x in xfps]
+    spend = lambda: out_(5000, "spend-addr")
+    cases = [("the honest change output (keys in order %s) and a payment" % "".join(str(i) for i in perm), [out_(900, "change-addr", [honest[i] for i in perm]), spend()], True)
+             for perm in permutations(range(3))]
+    cases.append(("a payment followed by the honest change output", [spend(), out_(900, "change-addr", list(honest))], True))
+    for q in ((1, 3), (3, 3), (2, 2), (2, 4)):
+        cases.append(("a change output with a %d-of-%d script" % q, [out_(900, "change-addr", list(honest), quorum=q), spend()], False))
+    for pos in range(3):
+        dup = list(honest)
+        dup[pos] = named(xfps[(pos + 1) % 3], "1/8")
+        cases.append(("a change output whose key %d is a second key of cosigner %s (nothing of cosigner %s)" % (pos, xfps[(pos + 1) % 3], xfps[pos]), [out_(900, "change-addr", dup), spend()], False))
+        unk = list(honest)
+        unk[pos] = named("dddddddd", "1/7")
+        cases.append(("a change output whose key %d belongs to a cosigner outside the map" % pos, [out_(900, "change-addr", unk), spend()], False))
+        wrong = list(honest)
+        wrong[pos] = named(xfps[pos], "1/7", "1/9")
+        cases.append(("a change output whose key %d is not the key the stated path leads to" % pos, [out_(900, "change-addr", wrong), spend()], False))
+    cases.append(("a change output with two records for three keys", [out_(900, "change-addr", honest[:2]), spend()], False))
+    cases.append(("two change outputs", [out_(900, "change-addr", list(honest)), out_(800, "change-2", [named(x, "1/8") for x in xfps])], False))
+    n = 0
+    try:
+        for label, outs, ok in cases:
+            n += 1
+            me = Obj("psbt", "PSBT", {"psbt_outs": outs, "network": "testnet"})
+            try:
+                r = Evaluator(ctx.repo, method_hooks=hooks, max_steps=2000000).call(spec, [2, 3, dict(hdmap)], self_obj=me)
+                acc = True
+            except Raised as x:
+                acc, r = False, x.name
+            if acc != ok:
+                ctx.count("cells", n)
+                return [ctx.bad(spec, "%s: %s" % (label, "summarised, the output is labelled change" if acc else "refused (%s)" % r), fn, mod, key="outputs-cells")]
+            if acc:
+                descs = r.get("outputs_desc") if isinstance(r, dict) else None
+                labels = {d.get("addr"): d.get("is_change") for d in descs} if isinstance(descs, list) else None
+                if labels != {"change-addr": True, "spend-addr": False} or r.get("change_addr") != "change-addr" or r.get("change_sats") != 900 or r.get("spend_sats") != 5000 \
+                        or r.get("spend_addr") != "spend-addr" or r.get("total_sats") != 5900:
+                    ctx.count("cells", n)
+                    return [ctx.bad(spec, "%s: summarised with labels %s, change %s/%s, spend %s/%s, total %s" % (
+                        label, labels, r.get("change_addr"), r.get("change_sats"), r.get("spend_addr"), r.get("spend_sats"), r.get("total_sats")), fn, mod, key="outputs-cells")]
+    except Undecided as u:
+        return [ctx.err(spec, "output summary not evaluable: %s" % u, fn, mod)]
+    ctx.count("cells", n)
+    return [ctx.ok(spec, "%d output lists: change is reported exactly for a 2-of-3 output with one verified key of each of the three cosigners; amounts and addresses as given" % n,
+                   fn, mod, key="outputs-cells")]
+
+
+def c11_20(ctx):
+    """CELLS output summary"""
+    return _output_cells(ctx)
+
+
 def c11_3(ctx):
+    """distinct cosigners (GUARD over an accumulator); in another form the output-summary cells (C11.20) decide"""
+    spec = "psbt:PSBT._describe_basic_multisig_outputs"
+    try:
+        out = _c11_3_struct(ctx)
+    except AnalysisError as e:
+        mod, fn = rl.get(ctx, spec)
+        out = [ctx.err(spec, str(e), fn, mod)]
+    return rl.defer(ctx, out, lambda: _output_cells(ctx), "decided by the output-summary cells (C11.20: a second key of one cosigner at any position is refused, the honest output in every key "
+                    "order is change); the accumulator is not in the form this rule reads")
+
+
+def _c11_3_struct(ctx):
     """distinct cosigners: a test over an accumulator of the per-key xfp values dominates the change label"""
     spec = "psbt:PSBT._describe_basic_multisig_outputs"
     mod, fn = rl.get(ctx, spec)
@@ -854,15 +953,18 @@ def c11_19(ctx):
 
 OBLIGATIONS = [
     ("C11.19", "CELLS input summary", c11_19),
+    ("C11.20", "CELLS output summary", c11_20),
     ("C11.18", "CELLS opcode", c11_18),
     ("C11.17", "SHARED", c11_17),
     ("C11.16", "SET-ORDER", c11_16),
     ("C11.10", "MEMO", c11_10),
     ("C11.9", "GUARD relation", c11_9),
     ("C11.1", "GUARD commitment", c11_1),
-    ("C11.2", "GUARD", c11_2),
+    ("C11.2", "GUARD", rl.deferring(c11_2, _output_cells, "psbt:PSBT._describe_basic_multisig_outputs", "decided by the output-summary cells (C11.20: another threshold or key count, "
+                                    "a missing record, an unknown cosigner and a key the stated path does not lead to are refused at every position); the checks are not in the form this rule reads", 5)),
     ("C11.3", "GUARD accumulator", c11_3),
-    ("C11.4", "GUARD", c11_4),
+    ("C11.4", "GUARD", rl.deferring(c11_4, _output_cells, "psbt:PSBT._describe_basic_multisig_outputs", "decided by the output-summary cells (C11.20: two change outputs are refused); "
+                                    "the test is not in the form this rule reads")),
     ("C11.5", "ACCUMULATOR paths", c11_5),
     ("C11.6", "DATAFLOW", c11_6),
     ("C11.7", "GUARD", c11_7),
@@ -871,6 +973,7 @@ OBLIGATIONS = [
     ("C11.12", "COVER membership", c11_12),
     ("C11.13", "GUARD type", c11_13),
     ("C11.14", "GUARD agreement", c11_14),
-    ("C11.15", "SEEN-SET", c11_15),
+    ("C11.15", "SEEN-SET", rl.deferring(c11_15, _output_cells, "psbt:PSBT._describe_basic_multisig_outputs", "decided by the output-summary cells (C11.20: a second key of one cosigner is "
+                                        "refused at every position); no local seen-set in the form this rule reads")),
 ]
 FLOORS = {"C11.1": 4, "C11.2": 5, "C11.5": 2, "C11.6": 4, "C11.7": 2, "C11.8": 5}
